@@ -1,3 +1,4 @@
 import Driver.Loop
 import Driver.Ops.LP
-def main : IO Unit := runDriver Ops.LP.ops
+import Driver.Ops.Cert
+def main : IO Unit := runDriver (Ops.LP.ops ++ Ops.Cert.ops)
